@@ -571,7 +571,11 @@ struct CaptureSerializer : public Serialization::AbstrSerializer
 };
 
 static const int NFA_SYMS = 8;
+#ifndef VH_NO_NFAS
 static void nfasRegisterAlphabet();
+#else
+static void nfasRegisterAlphabet() {}
+#endif
 static void initFaAlphabet()
 {
 	static bool done = false;
@@ -1671,15 +1675,33 @@ static string opLts(const vector<string>& a)
 
 // ---------------------------------------------------------------- dispatcher
 // ---------------------------------------------------------------- utility classes under the algorithms (full-stack tasks T31, T32, …)
+#ifndef VH_NO_ORDVEC
 #include "ops/op_ordvec.inc"
+#endif
+#ifndef VH_NO_ACHAIN
 #include "ops/op_achain.inc"
+#endif
+#ifndef VH_NO_BDDSIM
 #include "ops/op_bddsim.inc"
+#endif
+#ifndef VH_NO_BINREL
 #include "ops/op_binrel.inc"
+#endif
+#ifndef VH_NO_CACHEH
 #include "ops/op_cacheh.inc"
+#endif
+#ifndef VH_NO_GLUE
 #include "ops/op_glue.inc"
+#endif
+#ifndef VH_NO_CLIARGS
 #include "ops/op_cliargs.inc"
+#endif
+#ifndef VH_NO_LTSUTIL
 #include "ops/op_ltsutil.inc"
+#endif
+#ifndef VH_NO_NFAS
 #include "ops/op_nfas.inc"
+#endif
 
 // ---------------------------------------------------------------- API sweep (C20): every remaining public entry point of the four
 // encodings is called once on well-formed operands; each call may complete ('R'), throw NotImplementedException ('N') or
@@ -1813,15 +1835,51 @@ static string runCase(const string& kind, const vector<string>& args)
 	if (kind == "bddtd") return opBddToTd(args);
 	if (kind == "mth" || kind == "mthrc") return opMtHist(args);
 	if (kind == "apisweep") return opApiSweep(args);
+#ifndef VH_NO_ORDVEC
 	if (kind == "ordvec") return opOrdvec(args);
+#else
+	if (kind == "ordvec") return "OPDISABLED ordvec";
+#endif
+#ifndef VH_NO_ACHAIN
 	if (kind == "achain") return opAchain(args);
+#else
+	if (kind == "achain") return "OPDISABLED achain";
+#endif
+#ifndef VH_NO_BDDSIM
 	if (kind == "bddsim") return opBddsim(args);
+#else
+	if (kind == "bddsim") return "OPDISABLED bddsim";
+#endif
+#ifndef VH_NO_BINREL
 	if (kind == "binrel") return opBinrel(args);
+#else
+	if (kind == "binrel") return "OPDISABLED binrel";
+#endif
+#ifndef VH_NO_CACHEH
 	if (kind == "cacheh") return opCacheh(args);
+#else
+	if (kind == "cacheh") return "OPDISABLED cacheh";
+#endif
+#ifndef VH_NO_GLUE
 	if (kind == "glue") return opGlue(args);
+#else
+	if (kind == "glue") return "OPDISABLED glue";
+#endif
+#ifndef VH_NO_CLIARGS
 	if (kind == "cliargs") return opCliargs(args);
+#else
+	if (kind == "cliargs") return "OPDISABLED cliargs";
+#endif
+#ifndef VH_NO_LTSUTIL
 	if (kind == "ltsutil") return opLtsutil(args);
+#else
+	if (kind == "ltsutil") return "OPDISABLED ltsutil";
+#endif
+#ifndef VH_NO_NFAS
 	if (kind == "nfas") return opNfas(args);
+#else
+	if (kind == "nfas") return "OPDISABLED nfas";
+#endif
 	return "BADKIND";
 }
 
